@@ -240,3 +240,74 @@ class _h1_u:
         W = getattr(old, "weights", None)
         return And(same(attr(attr(result, "_binnings")[0], "_bins"), attr(old.bins, "_bins")),
                    same(a.data, old.data), True if W is None else same(a.weights, W))
+
+
+H1K = "physt.histogram1d:Histogram1D"
+
+
+@contract(H1K + ".fill_n", props=["C03", "C13", "C14"], name=H1K + ".fill_n[any batch length and bin count]")
+class _fill_n_u:
+    """a batch of ANY length into a (non-adaptive) histogram with ANY number of bins: every bin gains exactly the weight of the
+    batch entries inside it -- which is what folding fill() over the batch adds"""
+    probe = "quantifier-free"
+    lemmas = _freq_u.lemmas
+    known = {
+        "underflow_and_overflow_gain_the_weight_below_and_above_for_consecutive_bins_otherwise_unknown":
+            [("F19b", lambda o: _micro_gap(attr(attr(o.self, "_binnings")[0], "_bins")))],
+    }
+
+    def configs():
+        return [{"dtype": "int64", "w": "none"}, {"dtype": "float64", "w": "float"}, {"dtype": "int64", "w": "float"}]
+
+    def thorough_configs():
+        return [{"dtype": d, "w": w} for d in ("int64", "float64") for w in ("none", "float", "int")]
+
+    def inputs(b):
+        from .unbounded import hist1d_t
+        n, N = nbins(b), b.int("N")
+        b.assume(n >= 1)
+        b.assume(N >= 0)
+        kw = dict(self=hist1d_t(b, "h", n, b.cfg.dtype), values=b.tarray("values", (N,)))
+        if b.cfg.w != "none":
+            kw["weights"] = b.tarray("weights", (N,), "float64" if b.cfg.w == "float" else "int64")
+            b.assume(forall(0, N, lambda i: kw["weights"][i] >= 0))
+        return kw
+
+    @ensures("every_bin_gains_the_weight_of_exactly_the_batch_entries_inside_it")
+    def _(a, old, result):
+        bins = attr(attr(old.self, "_binnings")[0], "_bins")
+        n = shape_of(bins)[0]
+        W = getattr(old, "weights", None)
+        f0, f1, e0, e1 = attr(old.self, "_frequencies"), attr(a.self, "_frequencies"), attr(old.self, "_errors2"), attr(a.self, "_errors2")
+        return And(shape_of(f1)[0] == n, shape_of(e1)[0] == n,
+                   forall(0, n, lambda j: And(f1[j] == f0[j] + wsum(old.values, W, bins[j, 0], bins[j, 1], j == n - 1),
+                                              e1[j] == e0[j] + wsum(old.values, W, bins[j, 0], bins[j, 1], j == n - 1, square=True))))
+
+    @ensures("underflow_and_overflow_gain_the_weight_below_and_above_for_consecutive_bins_otherwise_unknown")
+    def _(a, old, result):
+        bins = attr(attr(old.self, "_binnings")[0], "_bins")
+        n, N = shape_of(bins)[0], shape_of(old.values)[0]
+        W = getattr(old, "weights", None)
+        m0, m1 = elems(attr(old.self, "_missed")), elems(attr(a.self, "_missed"))
+        cons = forall(0, n - 1, lambda k: bins[k, 1] == bins[k + 1, 0])
+        return Implies(N > 0, lambda: And(
+            Implies(cons, lambda: And(m1[0] == m0[0] + wside("below", old.values, W, bins[0, 0]), m1[1] == m0[1] + wside("above", old.values, W, bins[n - 1, 1]))),
+            Implies(Not(cons), lambda: And(isnan(m1[0]), isnan(m1[1]))), m1[2] == m0[2]))
+
+    @ensures("an_empty_batch_changes_nothing_and_the_batch_is_not_modified")
+    def _(a, old, result):
+        N = shape_of(old.values)[0]
+        W = getattr(old, "weights", None)
+        return And(Implies(N == 0, lambda: And(same(attr(old.self, "_frequencies"), attr(a.self, "_frequencies")),
+                                               same(attr(old.self, "_errors2"), attr(a.self, "_errors2")),
+                                               same(elems(attr(old.self, "_missed")), elems(attr(a.self, "_missed"))))),
+                   same(a.values, old.values), True if W is None else same(a.weights, W), result is None)
+
+    @ensures("dtype_promoted_by_the_weights_and_consistent")
+    def _(a, old, result):
+        N = shape_of(old.values)[0]
+        W = getattr(old, "weights", None)
+        want = attr(old.self, "_dtype") if W is None else np.promote_types(attr(old.self, "_dtype"), dtype_of(W))
+        dt = attr(a.self, "_dtype")
+        return And(dtype_of(attr(a.self, "_frequencies")) == dt, dtype_of(attr(a.self, "_errors2")) == dt,
+                   Implies(N > 0, dt == want))
